@@ -443,6 +443,7 @@ def plan(tier, seed):
         specs.append({"kind": "random", "n": 40 if tier == "quick" else 400})
     for i in range(2 if tier == "quick" else 16):
         specs.append({"kind": "repl", "n": 12 if tier == "quick" else 60})
+    specs.append({"kind": "escaping"})
     return specs
 
 
@@ -451,6 +452,9 @@ START_CWD = [None]
 
 def run_shard(spec, ctx):
     START_CWD[0] = os.getcwd()
+    if spec["kind"] == "escaping":
+        from cklmon import sessions
+        return sessions.run_escaping(ctx, "C10")
     moddir = os.path.join(os.getcwd(), "mods")
     write_modules(moddir)
     write_modules(moddir + "_b", variant=1)
